@@ -790,8 +790,9 @@ func projHistoryRuns(c *Ctx, p *pool.Pool, maxReq int, given []json.RawMessage) 
 		path   map[string]string
 		edit   string
 		res    [3]*proto.Result // 0: history, 1: fresh after step 1, 2: fresh after step 2
-		marks  [2]int           // history: index of the last step of edit k
-		qsteps [3][][2]int      // per case: (first query step, count) per snapshot
+		two    bool
+		marks  [2]int      // history: index of the last step of edit k
+		qsteps [3][][2]int // per case: (first query step, count) per snapshot
 	}
 	hs := map[int]*hist{}
 	var groups [][]*proto.Case
@@ -834,8 +835,22 @@ func projHistoryRuns(c *Ctx, p *pool.Pool, maxReq int, given []json.RawMessage) 
 			}
 			return [2]int{first, n}
 		}
+		// every second history has a second entry file that requires what main requires and reads the modules' globals:
+		// a module is then a member of two projects, and both must follow its edits
+		two := (hv>>16)%2 == 0
+		main2 := ""
+		if two {
+			for ri, g := range tc.Req["main"] {
+				main2 += fmt.Sprintf("local q%d = require(\"%s\")\n", ri+1, g)
+			}
+			main2 += "print(g_a, g_b, g_c)\nprint(h_a, h_b, h_c)\n"
+		}
 		mk := func(id int, k int) *proto.Case {
 			pc := &proto.Case{ID: id, Files: map[string]string{"luahelper.json": cfgText}, Init: json.RawMessage(allOnLocal)}
+			if two {
+				pc.Files["luahelper.json"] = `{"ShowWarnFlag":1,"ProjectFiles":["main.lua","main2.lua"]}`
+				pc.Files["main2.lua"] = main2
+			}
 			for _, f := range projFiles {
 				text := h.r.text[f]
 				if f == h.edit {
@@ -847,8 +862,12 @@ func projHistoryRuns(c *Ctx, p *pool.Pool, maxReq int, given []json.RawMessage) 
 		}
 		// history
 		hc := mk(3*i+1, 0)
+		h.two = two
 		for _, f := range projFiles {
 			hc.Steps = append(hc.Steps, openStep(h.path[f], h.r.text[f]))
+		}
+		if two {
+			hc.Steps = append(hc.Steps, openStep("main2.lua", main2))
 		}
 		fn := h.path[h.edit]
 		nl := strings.Count(h.r.text[h.edit], "\n")
@@ -867,6 +886,9 @@ func projHistoryRuns(c *Ctx, p *pool.Pool, maxReq int, given []json.RawMessage) 
 			fc := mk(3*i+1+k, k)
 			for _, f := range projFiles {
 				fc.Steps = append(fc.Steps, openStep(h.path[f], fc.Files[h.path[f]]))
+			}
+			if two {
+				fc.Steps = append(fc.Steps, openStep("main2.lua", main2))
 			}
 			h.qsteps[k] = append(h.qsteps[k], queries(fc, k))
 			groups = append(groups, []*proto.Case{fc})
@@ -905,10 +927,17 @@ func projHistoryRuns(c *Ctx, p *pool.Pool, maxReq int, given []json.RawMessage) 
 			for _, st := range h.res[k].Steps {
 				foldDiags(h.res[k].Root, fv, st.Ntfs)
 			}
+			cmp := []string{}
 			for _, f := range projFiles {
-				a, b := diagKeySet(view[h.path[f]]), diagKeySet(fv[h.path[f]])
+				cmp = append(cmp, h.path[f])
+			}
+			if h.two {
+				cmp = append(cmp, "main2.lua")
+			}
+			for _, fp := range cmp {
+				a, b := diagKeySet(view[fp]), diagKeySet(fv[fp])
 				if a != b {
-					prob = append(prob, fmt.Sprintf("after save %d the client holds for %s {%s}, a fresh server reports {%s}", k, h.path[f], a, b))
+					prob = append(prob, fmt.Sprintf("after save %d the client holds for %s {%s}, a fresh server reports {%s}", k, fp, a, b))
 				}
 			}
 			hq, fq := h.qsteps[0][k-1], h.qsteps[k][0]
